@@ -9,6 +9,10 @@ IMPLEMENTED = {
             'deterministic simulation: seeded baton scheduler over real threads, bytecode-level pre-emption, fault injection (raising initializers, hostile tag equality, stalls), history oracle',
             'Seeded search over schedules of the real Python and C init_once implementations with injected initializer failures; each run is replayable from its recorded decisions. Sampling, not proof: a clean batch is evidence that no interleaving of the explored shape violates mutual exclusion / single completion / agreement / exception propagation / progress.',
             'GIL-build semantics: switches at bytecode boundaries of FFI.init_once and at GIL-release sites of ffi_init_once; sequential consistency; <=4 threads x <=3 calls; harness scheduler and oracle are trusted.'),
+    'C28': ('C', 'exploration', 'DESIGN.md 3.2',
+            'deterministic simulation: seeded coroutine scheduler over the real generated embedding start-up C code with a stubbed CPython; fault injection (failing/raising init code, failed import/module init/compile, recursive and cross-library calls, stalls); invariants checked at event time; exact deadlock detection',
+            'Seeded search over schedules and init-failure sequences of the real _embedding.h start-up path for two libraries and up to 3 threads; every run replayable from its case line and recorded decisions. Sampling, not proof.',
+            'CPython is a stub (GIL/initialization model); sequentially consistent interleavings with switches only at CAS/barrier/mutex/assert/C-API seams; memory-ordering bugs and switches between adjacent plain accesses are out of reach.'),
 }
 
 PENDING = {
